@@ -308,6 +308,32 @@ fn main() {
         bases.push(obs);
     }
 
+    // white space behind the terminator (in front of a unit that has not arrived yet), through run:
+    // the message is executed as before and the white space is neither an error nor a unit
+    let mut trailing = 0u64;
+    for (ti, p) in tpl.iter().enumerate() {
+        let mut b = vec![];
+        base_variant(p).render(&mut b);
+        let mut tails: Vec<Vec<u8>> = ws_all.clone();
+        tails.push(b" \t".to_vec());
+        tails.push(b"\r \r".to_vec());
+        for tail in tails {
+            let mut x = b.clone();
+            x.extend_from_slice(&tail);
+            let (ok, obs) = run_obs(&x);
+            trailing += 1;
+            if ok && obs != bases[ti] {
+                let feat = vec![("variation", "white-space-behind-the-terminator".to_string()), ("differs", if obs.errs != bases[ti].errs { "errors" } else { "handlers-or-arguments" }.to_string())];
+                out.groups.add("same-meaning", &feat, (x.len(), &x), || {
+                    (
+                        json!({"template": ti, "input": hex(&x)}),
+                        format!("variant \"{}\" of template {ti} ({}): observed {} ; base rendering gives {}", show(&x), TEMPLATES[ti], obs.show(), bases[ti].show()),
+                    )
+                });
+            }
+        }
+    }
+
     // work items: (template, part) where part selects a slice of the variant space
     // part 0: joint or factored products; part 1: single-slot sweeps; part 2: pair-slot sweeps
     let mut items: Vec<(usize, usize, usize)> = vec![];
@@ -478,7 +504,8 @@ fn main() {
         json!({"templates": TEMPLATES, "legend": "{Name} mnemonic (short/long x upper/lower/alternating), _ optional white-space slot, ~ mandatory slot, $ terminator (LF | CR LF)",
                "white_space_slots_total": slots_total, "white_space_byte_values_per_slot": 32,
                "product_sets": {"optional_slot": w0_set.iter().map(|w| show(w)).collect::<Vec<_>>(), "mandatory_slot": w1_set.iter().map(|w| show(w)).collect::<Vec<_>>()},
-               "joint_product_cap_per_template": joint_cap, "pair_values": pair_set.len()}),
+               "joint_product_cap_per_template": joint_cap, "pair_values": pair_set.len(),
+               "white_space_behind_the_terminator": {"variants": trailing, "tails": "each of the 32 white-space bytes, SP TAB, CR SP CR", "engine": "run"}}),
     );
     out.cov("skipped_crashing_executions", t.crashed);
     out.cov("samples", json!(["syst:value\\t5\\r\\n", " MEASURE:data  'a b' ,#12xy, ON\\n", "sOuRcE:VOLT:level 2 ; lev 3;LEVEL?\\n"]));
